@@ -516,7 +516,7 @@ func c11Accounting(c *Ctx, pr *PropertyRun) {
 	p := c.P
 	r := NewRule("C11", "C11.accounting", "request forms and per-property accounting of NewPropFindResponse; one propstat per status in Response.EncodeProp (E2)")
 	r.Exhaustive = true
-	r.Bounds = "requested names <= 2 (distinct), available properties: resourcetype plus <= 1 other"
+	r.Bounds = "requested names <= 2 (distinct; the unavailable one shares its local name with the available one, in another namespace), available properties: resourcetype plus <= 1 other"
 	pr.Rules = append(pr.Rules, r)
 	fn := p.MustFunc(r, pkgInternal, "NewPropFindResponse")
 	enc := p.MustFunc(r, pkgInternal, "(*Response).EncodeProp")
@@ -529,6 +529,13 @@ func c11Accounting(c *Ctx, pr *PropertyRun) {
 		s := zeroOf(xmlNameT).(Struct)
 		s.F[0].Set(kStr("DAV:"))
 		s.F[1].Set(kStr(local))
+		if local == "unknown" {
+			// the unavailable property has the SAME local name as the available
+			// one, in another namespace: names are (namespace, local) pairs, an
+			// answer keyed by the local name alone confuses the two
+			s.F[0].Set(kStr("urn:example:other"))
+			s.F[1].Set(kStr("known"))
+		}
 		return s
 	}
 	startT := p.lookupType("encoding/xml", "StartElement")
@@ -759,6 +766,11 @@ func rawLocalName(st Struct) string {
 			if nm, ok := se.F[0].Get().(Struct); ok {
 				if k, ok := nm.F[1].Get().(Konst); ok {
 					s, _ := constStringVal(k)
+					if sp, ok := nm.F[0].Get().(Konst); ok {
+						if sps, _ := constStringVal(sp); sps != "DAV:" {
+							return "unknown"
+						}
+					}
 					return s
 				}
 			}
